@@ -432,6 +432,10 @@ add("C01", "fixed", "render-differs:output", "the asynchronous if tag evaluated 
     "(block.super re-renders the parent block, counters included) render gave 'yes', render_async gave ''",
     [c01({"base": "{% block b %}{% increment c %}{% endblock %}", "main": "{% extends 'base' %}{% block b %}{% if false %}no{% elsif block.super == '0' %}yes{% else %}else{% endif %}{% endblock %}"}, {}, env={"extra": True})], "9c04756")
 
+add("C03", "fixed", "lax-raises-render:ContextDepthError:render", "repair 68b6280 (the context depth error is not swallowed node by node) made render() raise ContextDepthError in lax and warn mode; "
+    "found by C03 once it rendered self-recursive partials in tolerant environments. The render now stops there and the error follows the mode",
+    [{"source": "a{% render 'selfr' %}z", "data": V.enc({}), "env": {"extra": True, "limits": {"context_depth_limit": 6}}}], "fee35e1")
+
 if __name__ == "__main__":
     # further entries are appended by tools/mkfindings.py from triaged replay files and kept in findings_extra.json
     extra_path = os.path.join(VERIF, "tools", "findings_extra.json")
